@@ -146,3 +146,14 @@ Proof. apply tcp_server_framed. Qed.
 
 Lemma top_tcp_server_id x idle svc r : tcp_server x idle svc = Ok (Some r) -> m_id r = x_id x.
 Proof. apply tcp_server_id. Qed.
+
+(* the receive buffer: what is parsed once only the received octets are *)
+Lemma top_dgram_received_only : dgram_parses_whole_buffer = false ->
+  forall d x, xreq_of_datagram d = Some x -> 12 + qs_len (x_qs x) <= len d.
+Proof. unfold xreq_of_datagram, dgram_buffer. intros ->. exact dgram_received_only. Qed.
+
+Lemma top_dgram_padding_refuted : dgram_parses_whole_buffer = true ->
+  exists x r, xreq_of_datagram pad_datagram = Some x /\ cnt (x_qs x) = 202 /\
+    udp_server x (Some 1232) (SvcOk (mk_response (x_base x) 144 0 1 15 0 11 None)) = Ok (Some r) /\
+    len pad_datagram = 12 /\ 512 <= mlen r.
+Proof. unfold xreq_of_datagram, dgram_buffer, udp_server. intros ->. apply dgram_padding_refuted_gen. Qed.
